@@ -104,7 +104,7 @@ pub struct Plan {
     pub golden: Option<usize>,
 }
 
-const POOL_KINDS: [&str; 7] = ["utf8", "integer", "float", "long", "double", "class_this", "string_this"];
+const POOL_KINDS: [&str; 8] = ["utf8", "integer", "float", "long", "double", "class_this", "string_this", "utf8_max"];
 const CLASS_ATTR_KINDS: [&str; 9] = ["Synthetic", "Deprecated", "SourceFile", "Signature", "NestHost", "NestMembers", "PermittedSubclasses", "SourceDebugExtension", "Other"];
 const METHOD_ATTR_KINDS: [&str; 4] = ["MethodParameters", "Exceptions", "Synthetic", "Deprecated"];
 
@@ -662,6 +662,9 @@ fn apply_raw_op(v: &mut ClassFile, s: &mut Sem, op: &RawOp) -> Result<String, &'
             let this_utf8 = utf8_index_of_class(v, this).ok_or("this_class is not a Class entry")?;
             let c = match kind.as_str() {
                 "utf8" => CpInfo::Utf8 { bytes: b"c20$extra".to_vec() },
+                // the longest string a u2 length can announce (a list that fills its count field exactly: missed seeded
+                // change C20-15, `len >= MAX` refused)
+                "utf8_max" => CpInfo::Utf8 { bytes: vec![b'u'; 65_535] },
                 "integer" => CpInfo::Integer { bytes: 0x8000_0001 },
                 "float" => CpInfo::Float { bytes: 0x7fc0_0001 },
                 "long" => CpInfo::Long { high_bytes: 0x0123_4567, low_bytes: 0x89ab_cdef },
@@ -773,6 +776,8 @@ fn apply_raw_op(v: &mut ClassFile, s: &mut Sem, op: &RawOp) -> Result<String, &'
                     let p = push_utf8(v, b"p");
                     let mut ps = vec![];
                     let mut sem_ps = vec![];
+                    // 3 stands for the most a u1 count can announce
+                    let n = if n == 3 { 255 } else { n };
                     for k in 0..n {
                         let named = k % 2 == 0;
                         ps.push(MethodParametersEntry { name_index: if named { p } else { 0 }, access_flags: 0x0010 });
